@@ -113,7 +113,11 @@ mod impls {
             let mut counters = Vec::new();
             let mut gauges = Vec::new();
             let mut histograms = Vec::new();
+            #[cfg(metrique_verif)]
+            crate::verif::sync_point("begin", None);
             registry.visit_counters(|key, counter| {
+                #[cfg(metrique_verif)]
+                crate::verif::sync_point("counter", Some(key));
                 let counter = counter.swap(0, Ordering::Relaxed);
                 // don't include counters that weren't incremented in the log
                 if emit_zero_counters || counter != 0 {
@@ -121,14 +125,24 @@ mod impls {
                 }
             });
             counters.sort_by(|u, v| u.0.cmp(&v.0));
+            #[cfg(metrique_verif)]
+            crate::verif::sync_point("gauges", None);
             registry.visit_gauges(|key, gauge| {
+                #[cfg(metrique_verif)]
+                crate::verif::sync_point("gauge", Some(key));
                 gauges.push((key.clone(), f64::from_bits(gauge.load(Ordering::Relaxed))));
             });
             gauges.sort_by(|u, v| u.0.cmp(&v.0));
+            #[cfg(metrique_verif)]
+            crate::verif::sync_point("hists", None);
             registry.visit_histograms(|key, histogram| {
+                #[cfg(metrique_verif)]
+                crate::verif::sync_point("hist", Some(key));
                 histograms.push((key.clone(), histogram.drain()));
             });
             histograms.sort_by(|u, v| u.0.cmp(&v.0));
+            #[cfg(metrique_verif)]
+            crate::verif::sync_point("finish", None);
             MetricAccumulatorEntry {
                 counters,
                 gauges,
